@@ -110,8 +110,10 @@ def run_instance(inst, tier):
     names = [t[0] for t in tops]
     N = inst["N"]
     prev = None
-    for pl in inst["placements"]:
-        net, jds, rows = netgen.build_network(N, tops, pl)
+    for pl, variant in [(pl, v) for pl in inst["placements"] for v in (None, "reversed-insertion")]:
+        if variant and len(pl) > 4:
+            continue
+        net, jds, rows = netgen.build_network(N, tops, pl, relabel=variant)
         want_ejks, want_keys = expected(N, tops, jds, rows)
         desc = {"tset": inst["tset"], "N": N, "placement": [[k, list(vs)] for k, vs, _ in pl]}
         # histories of repeated extraction on ONE object
@@ -135,7 +137,7 @@ def run_instance(inst, tier):
                               f"{bad[1]}", desc, call=call)
                 break
         # interleaving with a second extractor (other network)
-        if tier == "thorough" and prev is not None:
+        if prev is not None and (tier == "thorough" or len(pl) <= 3):
             pnet, pwant, pkeys = prev
             for pattern in itertools.product("AB", repeat=3):
                 a = JointExcessJointDegree({TN.NETWORK: net.G, TN.EDGE_NAMES: list(names)})
